@@ -6,7 +6,7 @@ from lib import common, rstage, gen
 from lib.vals import *
 from checks.c03 import tree_tags
 
-THEOREMS = ["C02_flat_unsupported_throws", "C02_flat_schema_sound_on_fragment", "C02_fragment_nonvacuous", "C02_refuted_tuple_without_minItems", "C02_refuted_never_is_malformed", "C02_nonvacuous"]
+THEOREMS = ["C02_flat_unsupported_throws", "C02_flat_schema_sound_on_fragment", "C02_fragment_nonvacuous", "C02_flat_schema_complete_on_fragment", "C02_complete_fragment_nonvacuous", "C02_refuted_tuple_without_minItems", "C02_refuted_never_is_malformed", "C02_nonvacuous"]
 IMPORTS = "From Beff Require Import Model.Cases Model.JsonSchema Model.StrictSpec."
 
 
